@@ -2542,6 +2542,12 @@ class Processor:
                                     str(yaml_path),
                                     except_segment
                                 ) from wrap_ex
+                        if newidx < 0:
+                            raise YAMLPathException(
+                                "Cannot add an element at a negative index",
+                                str(yaml_path),
+                                except_segment
+                            )
                         for _ in range(len(data) - 1, newidx):
                             next_node = Nodes.build_next_node(
                                 yaml_path, depth + 1, value
